@@ -55,6 +55,7 @@ MODEL_CLASSES = {c[0] for c in ENV_IMPORT['classes']}
 # Which handle semantics of the memory file system the Lean model is asked to mirror: 'shared'
 # (the tree as it is: all handles of a file share one position, F130) or 'perhandle'
 # (fixes/C05-F130.patch applied).
+# 'perhandle-append': with fixes/C05-F374.patch ('a' handles write at the current end of the file).
 HANDLE_MODEL = os.environ.get('C05_HANDLE_MODEL', 'perhandle')   # mirrors /repo since fix b23b24a (F130)
 
 TUPLE_MARKER = '__tuple__'
@@ -555,6 +556,16 @@ SEQ_PATHS = {
 }
 
 
+def interleave(a, b):
+  out = []
+  for i in range(max(len(a), len(b))):
+    if i < len(a):
+      out.append(a[i])
+    if i < len(b):
+      out.append(b[i])
+  return out
+
+
 def gen_seq_case(rng):
   """Histories on one sequence backend with aliasing steps: read, change a returned record in
   place, read again (same / second reader, also after re-opening for append)."""
@@ -569,9 +580,14 @@ def gen_seq_case(rng):
   ops, reads, started = [], 0, set()
   for _ in range(rng.randint(3, 10)):
     p = rng.below(2)
-    k = rng.weighted([(4, 'add'), (4, 'read'), (3 if reads else 0, 'mutate'), (2, 'read2')])
+    k = rng.weighted([(4, 'add'), (4, 'read'), (3 if reads else 0, 'mutate'), (2, 'read2'), (2, 'add2')])
     if p not in started:
       k = 'add'
+    if k == 'add2':
+      # two appenders open at the same time, adding in turn
+      ops.append({'k': 'add2', 'p': p, 'v1': [record() for _ in range(rng.randint(1, 2))],
+                  'v2': [record() for _ in range(rng.randint(1, 2))]})
+      continue
     if k == 'add':
       m = 'w' if p not in started or rng.chance(0.2) else 'a'
       started.add(p)
@@ -1647,6 +1663,16 @@ class _Impl:
               for v in op['v']:
                 f.add(self.build(v))
             outs.append(None)
+          elif op['k'] == 'add2':
+            a, b = pg.open_jsonl(paths[op['p']], 'a'), pg.open_jsonl(paths[op['p']], 'a')
+            for i in range(max(len(op['v1']), len(op['v2']))):
+              if i < len(op['v1']):
+                a.add(self.build(op['v1'][i]))
+              if i < len(op['v2']):
+                b.add(self.build(op['v2'][i]))
+            b.close()
+            a.close()
+            outs.append(None)
           elif op['k'] == 'mutate':
             recs = held[op['r']]
             if op['i'] < len(recs):
@@ -1654,21 +1680,26 @@ class _Impl:
             outs.append(None)
           else:
             path = paths[op['p']]
-            if op['k'] == 'read2':
-              g1, g2 = pg.open_jsonl(path, 'r'), pg.open_jsonl(path, 'r')
-              first = list(iter(g1))
-              for x in first:
-                self.mutate_in_place(x)
-              recs = list(iter(g2))
-              g1.close()
-              g2.close()
-            else:
-              with pg.open_jsonl(path, 'r') as f:
-                recs = list(iter(f))
-            held.append(recs)
             with pg_io.open_sequence(path, 'r') as f:
               raw = list(iter(f))
-            outs.append({'r': raw, 'v': [self.to_wire(x) for x in recs]})
+
+            def read_values():
+              if op['k'] == 'read2':
+                g1, g2 = pg.open_jsonl(path, 'r'), pg.open_jsonl(path, 'r')
+                try:
+                  first = list(iter(g1))
+                  for x in first:
+                    self.mutate_in_place(x)
+                  return list(iter(g2))
+                finally:
+                  g1.close()
+                  g2.close()
+              with pg.open_jsonl(path, 'r') as f:
+                return list(iter(f))
+            res = self.attempt(read_values)
+            recs = res.get('ok', [])
+            held.append(recs)
+            outs.append({'r': raw, 'v': [self.to_wire(x) for x in recs] if 'ok' in res else res})
         except Exception as e:   # pylint: disable=broad-except
           if op['k'] in ('read', 'read2'):
             held.append([])
@@ -2213,20 +2244,37 @@ class C05(Prop):
         for op in case['ops']:
           if op['k'] == 'add':
             ops.append({'k': 'add', 'p': paths[op['p']], 'm': op['m'], 'r': [json_text_of_tree(v) for v in op['v']]})
+          elif op['k'] == 'add2':
+            ops.append({'k': 'add', 'p': paths[op['p']], 'm': 'a',
+                        'r': [json_text_of_tree(v) for v in interleave(op['v1'], op['v2'])]})
           elif op['k'] == 'mutate':
             ops.append({'k': 'mutate'})
           else:
             ops.append({'k': 'read', 'p': paths[op['p']]})
         return {'op': 'memseq', 'ops': ops}
-      ops = []
+      # line sequences on /mem: the handle-level model (two appenders are two open handles)
+      ops, nh = [], 0
       for op in case['ops']:
         if op['k'] == 'add':
           ops.append({'k': 'seqw', 'p': paths[op['p']], 'm': op['m'], 'r': [json_text_of_tree(v) for v in op['v']]})
+        elif op['k'] == 'add2':
+          q = paths[op['p']]
+          ops.append({'k': 'mkdirs', 'p': os.path.dirname(q)})
+          ops.append({'k': 'hopen', 'p': q, 'm': 'a'})
+          ops.append({'k': 'hopen', 'p': q, 'm': 'a'})
+          for i in range(max(len(op['v1']), len(op['v2']))):
+            if i < len(op['v1']):
+              ops.append({'k': 'hwrite', 'h': nh, 'c': json_text_of_tree(op['v1'][i]) + '\n'})
+            if i < len(op['v2']):
+              ops.append({'k': 'hwrite', 'h': nh + 1, 'c': json_text_of_tree(op['v2'][i]) + '\n'})
+          ops.append({'k': 'hclose', 'h': nh + 1})
+          ops.append({'k': 'hclose', 'h': nh})
+          nh += 2
         elif op['k'] == 'mutate':
           ops.append({'k': 'exists', 'p': paths[0]})
         else:
           ops.append({'k': 'seqr', 'p': paths[op['p']]})
-      return {'op': 'store', 'cfg': 'patched', 'ops': ops}
+      return {'op': 'hstore', 'cfg': HANDLE_MODEL, 'ops': ops}
     if k == 'dyn':
       self.setup_impl()
       im = C05._impl
@@ -2284,7 +2332,7 @@ class C05(Prop):
           return 'serialisation %d of the history: impl=%s model=%s' % (i, json.dumps(x)[:300], json.dumps(y)[:300])
       return None if len(a) == len(b) else 'different number of serialisations'
     if k == 'seq':
-      reads = [o for op, o in zip(case['ops'], model_out['outs']) if op['k'] in ('read', 'read2')]
+      reads = [o for o in model_out['outs'] if isinstance(o, dict) and ('r' in o or 'err' in o)]
       a = impl_out['model']['reads']
       return None if a == reads else 'sequence reads: impl=%s model=%s' % (json.dumps(a)[:300], json.dumps(reads)[:300])
     if k == 'callable':
@@ -2382,16 +2430,34 @@ class C05(Prop):
                       i, step['via'], step['opts'], n, what)}
       return None
     if k == 'seq':
-      spec = {}
+      spec, two = {}, set()
       for i, (op, o) in enumerate(zip(case['ops'], out['outs'])):
         err = isinstance(o, dict) and o.get('err')
         if op['k'] == 'add':
           if err:
             return {'signature': 'seq:add-raises', 'what': 'op %d raises %s' % (i, err)}
           spec[op['p']] = (list(spec.get(op['p'], [])) if op['m'] == 'a' else []) + list(op['v'])
+        elif op['k'] == 'add2':
+          if err:
+            return {'signature': 'seq:add-raises', 'what': 'op %d raises %s' % (i, err)}
+          spec[op['p']] = list(spec.get(op['p'], [])) + interleave(op['v1'], op['v2'])
+          two.add(op['p'])
         elif op['k'] in ('read', 'read2'):
+          if op['p'] not in spec:
+            continue          # never written in this history
           want = spec.get(op['p'], [])
-          if err or o['v'] != want:
+          got = None if (err or not isinstance(o['v'], list)) else o['v']
+          if op['p'] in two and got is not None:
+            # the order in which two concurrent appenders' records land is the file system's business
+            canon = lambda rs: sorted(json.dumps(r, sort_keys=True) for r in rs)
+            same = canon(got) == canon(want)
+          else:
+            same = got == want
+          if not same and op['p'] in two and case['backend'] == 'line':
+            return {'signature': 'seq:line:two-appenders-lose-records',
+                    'what': 'op %d: after two appenders were open together %s holds %s, appended %s' % (
+                        i, SEQ_PATHS['line'][op['p']], json.dumps(o)[:200], json.dumps(want)[:200])}
+          if not same:
             return {'signature': 'seq:%s:read-differs-from-appended' % case['backend'],
                     'what': 'op %d (%s on backend %s): read gives %s, appended %s' % (
                         i, op['k'], case['backend'], json.dumps(o)[:200], json.dumps(want)[:200])}
@@ -2581,7 +2647,7 @@ class C05(Prop):
           h['closed'] = True
         elif k == 'hwrite':
           if cur and f['c'] is not None:
-            c, pos = f['c'], h['pos']
+            c, pos = f['c'], (len(f['c']) if h.get('append') else h['pos'])
             c = c + '\0' * (pos - len(c))
             f['c'] = c[:pos] + op['c'] + c[pos + len(op['c']):]
             h['pos'] = pos + len(op['c'])
@@ -2616,7 +2682,7 @@ class C05(Prop):
         f = files.get(key)
         if f is None:
           return {'signature': 'store:open-of-unwritten', 'what': 'op %d opens %s which was never written' % (i, op['p'])}
-        handles.append({'key': key, 'gen': f['gen'], 'closed': False,
+        handles.append({'key': key, 'gen': f['gen'], 'closed': False, 'append': op['m'] == 'a',
                         'pos': len(f['c'] or '') if op['m'] == 'a' else 0})
       elif k == 'save':
         if err:
